@@ -3,7 +3,11 @@
 Workload: generated acyclic multi-module packages (vf.gen.packages): local definitions with
 public/underscore names, absolute/relative/aliased/wildcard imports from earlier modules,
 ``__all__`` absent / list / tuple / concatenation / ``+=`` / built from another module's
-``__all__``, statements in random order, deliberate name clashes, re-export chains.
+``__all__``, statements in random order, deliberate name clashes, re-export chains.  Bound names
+(definitions and import aliases) also come in every underscore *shape* (dunder ``__version__``-like
+names, neutral module hooks ``__getattr__``/``__dir__``, class-private style, sunder, ``_``, trailing
+underscore) and are spelled like the structural names of the package (the module itself, its
+ancestors, other modules); sub-modules are also fetched as ``from a.b import c``.
 Oracle (M-REF): a separate CPython child really imports the package and reports, per module, the
 names and the *defining identity* of every value.  Griffe: static load + resolve_aliases(
 implicit=True); names and final targets are compared; every resolved alias must present its
@@ -23,18 +27,23 @@ ANCHORS = ["loader.py", "agents/nodes/exports.py"]
 RULE = ("generated acyclic packages of 3-8 modules (0-2 sub-packages, optional nested sub-package): 2-7 statements per "
         "module drawn from definitions (func/class/unique-string value, public and underscore names, 25% from a shared "
         "pool to force clashes), from-imports (absolute/relative, aliased), module imports (import a.b [as c], from . import "
-        "m [as n]), wildcard imports, __all__ forms (list, tuple, concatenation, +=, other module's __all__ + list). "
+        "m [as n], from a.b import m [as n]), wildcard imports, __all__ forms (list, tuple, concatenation, +=, other module's "
+        "__all__ + list). 10% of bound names are underscore-shaped (dunder, module hooks, class-private style, sunder, "
+        "'_', trailing '_'), 10% are spelled like the module itself / an ancestor package / another module. "
         "Only packages CPython imports without error are judged. distinct = digest of files; non-trivial = >=1 wildcard, "
         ">=1 __all__ and a re-export chain of length >=2")
 LEVEL_TEXT = ("Each generated package is really imported by a CPython child and statically loaded by Griffe with alias "
-              "resolution; per module the visible names (minus interpreter dunders and implicitly bound sub-modules, "
+              "resolution; per module the visible names (minus the dunders the interpreter sets itself and implicitly bound sub-modules, "
               "dropped symmetrically) and the defining object every name finally refers to must be equal; resolved aliases "
               "are checked to present their target's kind/docstring/labels/signature/members with rebased paths.")
 LEVEL_NOTE = ("trusted: CPython's import system in a child interpreter; values identify their definition through unique "
               "string literals / __module__.__qualname__; acyclic layering of the generator (cyclic graphs are C06's domain)")
 TECHNIQUE = "runtime monitoring: differential oracle against a real CPython import of the same package + alias-presentation invariants"
 REQUIRED_COUNTERS = ["packages_compared", "modules_compared", "names_compared", "final_targets_compared",
-                     "alias_presentations_checked", "wildcard_expansions_observed"]
+                     "alias_presentations_checked", "wildcard_expansions_observed",
+                     "wildcards_over_underscore_names_without_all", "wildcards_over_dunder_names_without_all",
+                     "wildcards_exporting_underscore_names_through_all", "dunder_names_compared",
+                     "underscore_shaped_names_compared", "namespace_spelled_names_compared"]
 EXHAUSTIVE = {"quick": False, "thorough": False}
 ASSUMPTIONS = ["import graphs are acyclic by construction", "implicitly bound sub-modules (not bound by a statement of that module) are dropped on both sides"]
 _SERVER: RefServer | None = None
@@ -116,6 +125,16 @@ def judge(rec, case, files, top, ref, pkg) -> list[tuple]:  # noqa: ANN001, C901
                              sorted(rnames), fid, tried))
             rnames = {n: v for n, v in rnames.items() if n in gnames}   # go on with the names both sides have
         rec.count("names_compared", len(rnames))
+        structural = {part for m in ref["modules"] for part in m.split(".")}
+        for n in rnames:
+            if n == "__all__":
+                continue
+            if packages.is_dunder(n):
+                rec.count("dunder_names_compared")
+            elif n.startswith("_") or n.endswith("_"):
+                rec.count("underscore_shaped_names_compared")
+            if n in structural:
+                rec.count("namespace_spelled_names_compared")
         # exports
         if rmod["all"] is not None:
             gall = None if gmod.exports is None else [e if isinstance(e, str) else e.name for e in gmod.exports]
@@ -130,7 +149,7 @@ def judge(rec, case, files, top, ref, pkg) -> list[tuple]:  # noqa: ANN001, C901
             try:
                 final = m.final_target if m.is_alias else m
             except (AliasResolutionError, CyclicAliasError) as exc:
-                fid, tried = classify_target(gmod.path, n, {}, want, files)
+                fid, tried = classify_target(gmod.path, n, {}, want, files, ref)
                 problems.append((f"{gmod.path}.{n}: alias cannot be resolved in a fully loaded acyclic package", repr(exc)[:200], want, fid, tried))
                 continue
             if want["k"] == "value":
@@ -140,7 +159,7 @@ def judge(rec, case, files, top, ref, pkg) -> list[tuple]:  # noqa: ANN001, C901
             else:
                 continue
             if got != want:
-                fid, tried = classify_target(gmod.path, n, got, want, files)
+                fid, tried = classify_target(gmod.path, n, got, want, files, ref)
                 if fid is None and m.is_alias:
                     tried = [*tried, "C05-early-resolution-stale-target"]
                     fresh = relookup_by_path(pkg.modules_collection, m)
@@ -164,6 +183,79 @@ def judge(rec, case, files, top, ref, pkg) -> list[tuple]:  # noqa: ANN001, C901
             # a member shadows the sub-module in Griffe's single namespace (documented limitation), only if names clash
             continue
     return problems
+
+
+def statement_shadows_submodule(files: dict) -> bool:
+    """Static side of the domain restriction "a member shadows a sub-module of its own package" (documented Griffe
+    limitation): some package __init__ binds, by a top-level statement, the name of one of its direct children to
+    something other than that child.  The runtime test alone is order-fragile: importing the child later re-binds the
+    attribute on the package, after other modules (or class bodies) already captured the shadowing value."""
+    import ast
+
+    mods = {rel[:-3].replace("/", ".").removesuffix(".__init__") for rel in files}
+    for rel, src in files.items():
+        if not rel.endswith("/__init__.py"):
+            continue
+        pkgpath = rel[: -len("/__init__.py")].replace("/", ".")
+        children = {m.rsplit(".", 1)[1] for m in mods if "." in m and m.rsplit(".", 1)[0] == pkgpath}
+        for node in ast.parse(src).body:
+            if isinstance(node, (ast.FunctionDef, ast.AsyncFunctionDef, ast.ClassDef)):
+                bound = [(node.name, None)]
+            elif isinstance(node, (ast.Assign, ast.AnnAssign, ast.AugAssign)):
+                targets = node.targets if isinstance(node, ast.Assign) else [node.target]
+                bound = [(t.id, None) for t in targets if isinstance(t, ast.Name)]
+            elif isinstance(node, ast.Import):
+                bound = [(a.asname or a.name.split(".")[0], a.name if a.asname else a.name.split(".")[0]) for a in node.names]
+            elif isinstance(node, ast.ImportFrom):
+                if node.level:
+                    base = pkgpath.split(".")
+                    base = base[: len(base) - (node.level - 1)]
+                    srcmod = ".".join(base + ([node.module] if node.module else []))
+                else:
+                    srcmod = node.module
+                bound = [(a.asname or a.name, f"{srcmod}.{a.name}") for a in node.names if a.name != "*"]
+            else:
+                continue
+            if any(n in children and what != f"{pkgpath}.{n}" for n, what in bound):
+                return True
+    return False
+
+
+def wildcard_sources(files: dict) -> dict[str, list[str]]:
+    """Per module: the absolute paths of the modules its top-level `from X import *` statements read (in source order)."""
+    import ast
+
+    out: dict[str, list[str]] = {}
+    for rel, src in files.items():
+        mod = rel[:-3].replace("/", ".").removesuffix(".__init__")
+        is_pkg = rel.endswith("__init__.py")
+        for node in ast.parse(src).body:
+            if isinstance(node, ast.ImportFrom) and any(a.name == "*" for a in node.names):
+                if node.level:
+                    base = mod.split(".") if is_pkg else mod.split(".")[:-1]
+                    base = base[: len(base) - (node.level - 1)]
+                    srcmod = ".".join(base + ([node.module] if node.module else []))
+                else:
+                    srcmod = node.module
+                out.setdefault(mod, []).append(srcmod)
+    return out
+
+
+def count_input_classes(rec, files: dict, ref: dict) -> None:  # noqa: ANN001
+    """Evidence that the underscore-shape classes really reach the wildcard rule (counted from what CPython reports)."""
+    for mod, sources in wildcard_sources(files).items():
+        for srcmod in sources:
+            info = ref["modules"].get(srcmod)
+            if info is None:
+                continue
+            under = [n for n in info["names"] if n.startswith("_") and n != "__all__"]
+            if info["all"] is None:
+                if under:
+                    rec.count("wildcards_over_underscore_names_without_all")
+                if any(packages.is_dunder(n) for n in under):
+                    rec.count("wildcards_over_dunder_names_without_all")
+            elif any(n.startswith("_") for n in info["all"]):
+                rec.count("wildcards_exporting_underscore_names_through_all")
 
 
 def implicit_submodule_names(files: dict, ref: dict) -> dict[str, set[str]]:
@@ -204,6 +296,15 @@ def implicit_submodule_names(files: dict, ref: dict) -> dict[str, set[str]]:
             # (c) an explicit import of a name that is only implicitly bound in its source module: what it captures
             # depends on the order of import side effects
             for srcmod, name, asname, nested in explicit:
+                if f"{srcmod}.{name}" in ref["modules"] and (
+                        names.get(asname) == {"k": "module", "id": f"{srcmod}.{name}"} if not nested else
+                        not any(name in ref["modules"].get(w, {}).get("names", {}) or name in implicit.get(w, ())
+                                for w in info.get(srcmod, ((), (), ()))[1])):
+                    # `from P import child` naming a real direct sub-module of P: when P has no such attribute yet, CPython's
+                    # from-import imports the sub-module itself, so this binding does not depend on side-effect order - it
+                    # is judged.  Module level: what was captured is visible (it is that sub-module); inside a class body
+                    # it is not, so there no wildcard of P may be able to bring a same-named attribute into P first.
+                    continue
                 if name in implicit.get(srcmod, ()) and asname not in implicit[mod] and (
                         nested or names.get(asname, {}).get("k") == "module"):
                     implicit[mod].add(asname)
@@ -287,11 +388,63 @@ def classify_names(mod_path: str, missing: list, extra: list, files: dict, ref: 
     return None, tried
 
 
-def classify_target(mod_path: str, name: str, got: dict, want: dict, files: dict) -> tuple[str | None, list[str]]:
+def classify_target(mod_path: str, name: str, got: dict, want: dict, files: dict, ref: dict | None = None) -> tuple[str | None, list[str]]:
     tried = ["C05-init-from-dot-import-not-recorded"]
     if want["k"] == "module" and want["id"] in from_dot_imported_submodules(files):
         return "C05-init-from-dot-import-not-recorded", tried
+    tried.append("C05-repeated-wildcard-skip-keeps-older-line")
+    if ref is not None and got and repeated_wildcard_keeps_older_line(mod_path, name, got, want, files, ref):
+        return "C05-repeated-wildcard-skip-keeps-older-line", tried
     return None, tried
+
+
+def repeated_wildcard_keeps_older_line(mod_path: str, name: str, got: dict, want: dict, files: dict, ref: dict) -> bool:
+    """The module wildcard-imports the same source S twice (lines c1 < c2) with a wildcard import of another module T in
+    between (line b); `name` is bound to a *module* M by an import statement above b; S exposes `name` as that same
+    module M (so CPython's last word, at c2, is M) and Griffe answers what T binds under `name`.  Mechanism: the two
+    statements over S share one placeholder member that keeps the first position and the last line number, so S is
+    expanded before T; its `name` is skipped by the "alias named after the module it targets" special case without
+    taking over the line number c2, and T's older wildcard (b) then overrides the import statement."""
+    import ast
+
+    if want.get("k") != "module":
+        return False
+    rel = mod_path.replace(".", "/")
+    is_pkg = rel + "/__init__.py" in files
+    src = files.get(rel + "/__init__.py") if is_pkg else files.get(rel + ".py")
+    if src is None:
+        return False
+
+    def absolute(node: ast.ImportFrom) -> str:
+        if node.level:
+            base = mod_path.split(".") if is_pkg else mod_path.split(".")[:-1]
+            base = base[: len(base) - (node.level - 1)]
+            return ".".join(base + ([node.module] if node.module else []))
+        return node.module or ""
+
+    wild: list[tuple[int, str]] = []
+    import_lines: list[int] = []
+    for node in ast.parse(src).body:
+        if isinstance(node, ast.ImportFrom):
+            for a in node.names:
+                if a.name == "*":
+                    wild.append((node.lineno, absolute(node)))
+                elif (a.asname or a.name) == name and f"{absolute(node)}.{a.name}" == want["id"]:
+                    import_lines.append(node.lineno)
+        elif isinstance(node, ast.Import):
+            for a in node.names:
+                if a.asname == name and a.name == want["id"]:
+                    import_lines.append(node.lineno)
+    names_of = lambda m: ref["modules"].get(m, {}).get("names", {})  # noqa: E731
+    for b, t in wild:
+        if names_of(t).get(name, {}).get("id") != got.get("id"):
+            continue
+        for s_mod in {w for _, w in wild if w != t}:
+            lines = [ln for ln, w in wild if w == s_mod]
+            if (len(lines) >= 2 and min(lines) < b < max(lines) and names_of(s_mod).get(name) == want
+                    and any(a < b for a in import_lines)):
+                return True
+    return False
 
 
 def run_case(rec, files: dict, top: str, nontrivial: bool, tags=()) -> None:  # noqa: ANN001
@@ -307,6 +460,9 @@ def run_case(rec, files: dict, top: str, nontrivial: bool, tags=()) -> None:  # 
                 rec.skip("cpython-rejects-package")
                 rec.count("rejected_by_cpython")
                 return
+            if statement_shadows_submodule(files):
+                rec.skip("member-shadows-submodule")
+                return
             for mname, minfo in ref["modules"].items():
                 for n, v in minfo["names"].items():
                     if f"{mname}.{n}" in ref["modules"] and v["id"] != f"{mname}.{n}":
@@ -317,6 +473,7 @@ def run_case(rec, files: dict, top: str, nontrivial: bool, tags=()) -> None:  # 
             pkg, _loader = griffe_view(files, top, root)
             rec.count("packages_compared")
             rec.count("wildcard_expansions_observed", _WILD[0])
+            count_input_classes(rec, files, ref)
             res = judge(rec, case, files, top, ref, pkg)
     except Exception as exc:  # noqa: BLE001
         rec.fail_exc(case, f"{type(exc).__name__} while loading / resolving an acyclic package", exc, nontrivial=nontrivial, tags=tags)
